@@ -1250,4 +1250,5 @@ static void cp_gen(Ctx& ctx) {
 extern "C" const char* __asan_default_options() { return "quarantine_size_mb=32:malloc_context_size=6"; }
 #endif
 
+VK_FRESH_THREADS;
 VK_MAIN("C03")
